@@ -430,7 +430,7 @@ func genRewrite(r *rand.Rand) logqIn {
 		return in
 	}
 	names := []string{"a", "b", "c"}
-	vals := []string{"", "x", "xy", "X y"}
+	vals := []string{"", "x", "xy", "X y", " x ", "abab", "Hello aa"}
 	n := 1 + r.Intn(4)
 	for i := 0; i < n; i++ {
 		rec := MemRec{ID: i + 1, TS: []int{1700000001 + i, 0}, Attrs: [][2][]int{}, Doc: [][2][]int{}}
@@ -475,7 +475,28 @@ func genRewrite(r *rand.Rand) logqIn {
 	tpl := func() []partIn {
 		var ps []partIn
 		for k := 1 + r.Intn(3); k > 0; k-- {
-			switch r.Intn(6) {
+			switch r.Intn(8) {
+			case 6, 7:
+				// a function of one label's value
+				nm := B(pick(r, append(names, "nolabel")))
+				switch r.Intn(8) {
+				case 0:
+					ps = append(ps, partIn{T: "lower", Name: nm, S: Ints{}})
+				case 1:
+					ps = append(ps, partIn{T: "trimspace", Name: nm, S: Ints{}})
+				case 2:
+					ps = append(ps, partIn{T: "trunc", Name: nm, S: Ints{}, N: []int{0, 1, 2, 5, -1, -2, -9}[r.Intn(7)]})
+				case 3:
+					ps = append(ps, partIn{T: "replace", Name: nm, S: B(pick(r, []string{"x", "ab", "a", " ", "aa"})), B2: B(pick(r, []string{"", "y", "xx", "a"}))})
+				case 4:
+					ps = append(ps, partIn{T: "alignleft", Name: nm, S: Ints{}, N: []int{0, 1, 3, 6, -1}[r.Intn(5)]})
+				case 5:
+					ps = append(ps, partIn{T: "alignright", Name: nm, S: Ints{}, N: []int{0, 1, 3, 6, -1}[r.Intn(5)]})
+				case 6:
+					ps = append(ps, partIn{T: "default", Name: nm, S: B(pick(r, []string{"d", "", "n/a"}))})
+				default:
+					ps = append(ps, partIn{T: "repeat", Name: nm, S: Ints{}, N: r.Intn(4)})
+				}
 			case 0:
 				ps = append(ps, partIn{T: "lit", S: B(pick(r, []string{"-", "v=", " ", "z"})), Name: Ints{}})
 			case 1, 2:
